@@ -388,7 +388,8 @@ def run_apalache(specdir, work, inv, expect_error=False):
     t0 = time.time()
     try:
         r = subprocess.run(["apalache-mc", "check", "--init=Init", "--next=Next", "--inv=" + inv, "--length=0", "--out-dir=" + out, "ApaLimbs.tla"],
-                           cwd=specdir, capture_output=True, text=True, timeout=600)
+                           cwd=specdir, capture_output=True, text=True, timeout=600,
+                           env=dict(os.environ, JAVA_IO_TMPDIR=out, TMPDIR=out))   # SANY's unpacked modules go into the run's own directory
         txt = r.stdout + r.stderr
     except subprocess.TimeoutExpired:
         txt = "TIMEOUT"
